@@ -25,6 +25,9 @@ type ubCtx struct {
 	// at: the block from which the value is looked at; its dominating
 	// comparisons refine the bound of every sub-expression (i/8 where i < n)
 	at *ssa.BasicBlock
+	// lens: bounds on the length of slice parameters (a callee summarised for
+	// a call whose slice argument has a bounded length)
+	lens map[*ssa.Parameter]int64
 }
 
 func ubAdd(a, b int64) int64 {
@@ -212,8 +215,13 @@ func (c *ubCtx) ubStruct(v ssa.Value) int64 {
 		}
 		if f := x.Call.StaticCallee(); f != nil && len(f.Blocks) > 0 && len(f.Blocks) < 40 && f.Signature.Results().Len() == 1 {
 			sub := &ubCtx{params: map[*ssa.Parameter]int64{}, visiting: map[ssa.Value]bool{}, depth: c.depth}
+			sub.lens = map[*ssa.Parameter]int64{}
 			for i, p := range f.Params {
 				if i < len(x.Call.Args) {
+					if _, isSlice := p.Type().Underlying().(*types.Slice); isSlice {
+						sub.lens[p] = c.ubLen(x.Call.Args[i], x.Block(), 0)
+						continue
+					}
 					sub.params[p] = c.ub(x.Call.Args[i])
 				}
 			}
@@ -356,7 +364,13 @@ func (c *ubCtx) ubLen(x ssa.Value, at *ssa.BasicBlock, depth int) int64 {
 		}
 		return m
 	}
-	return c.lenGuards(x, ssaq.Atoms(ssaq.Guards(at)))
+	b := c.lenGuards(x, ssaq.Atoms(ssaq.Guards(at)))
+	if p, ok := x.(*ssa.Parameter); ok {
+		if l, has := c.lens[p]; has && l < b {
+			b = l
+		}
+	}
+	return b
 }
 
 func (c *ubCtx) ubLenOnEdge(x ssa.Value, pred, to *ssa.BasicBlock, depth int) int64 {
